@@ -393,6 +393,63 @@ def check_dual(ld, lens, p, res):
             v['sig']['two_iterators'] = True
 
 
+def check_consumer(ld, lens, p, how, res):
+    """What the consumer does between two next() calls:
+    'reconfigure': after a first (abandoned) iteration the limits of the SAME
+    dataset object are lowered in place (ds.bucket_kwargs[...] = ..., e.g.
+    after an out-of-memory error); the next iteration honours the limits the
+    object now reports.
+    'pad' / 'shrink': every received batch is changed in place (padding
+    entries appended / examples removed, as a collate function does); the
+    bookkeeping of the stage is its own."""
+    p = dict(p)
+    case = {'lens': list(lens), 'params': p, 'via': 'method', 'consumer': how}
+    res.case(('consumer', how, tuple(lens), tuple(p.items())), len(lens) >= 3)
+    log = []
+
+    def pull(x):
+        log.append(('pull', x[0]))
+        return x
+    examples = [(i, l) for i, l in enumerate(lens)]
+    kw = dict(expiration=p['exp'], max_buffered_examples=p['mb'], drop_incomplete=False,
+              batch_size=p['bs'], len_key=lambda x: x[1], max_padding_rate=p['rate'],
+              max_total_size=p['mts'],
+              sort_key=(None if p['sort'] is None else (lambda x: x[1])),
+              reverse_sort=(p['sort'] == 'desc'))
+    outs = []
+    try:
+        ds = ld.new(examples).map(pull).batch_dynamic_time_series_bucket(**kw)
+        if how == 'reconfigure':
+            if not isinstance(getattr(ds, 'bucket_kwargs', None), dict) \
+                    or 'batch_size' not in ds.bucket_kwargs:
+                return
+            it = iter(ds)
+            next(it, None)
+            del it
+            p['bs'] = max(1, p['bs'] - 1)
+            ds.bucket_kwargs['batch_size'] = p['bs']
+            if p['mts'] is not None:
+                p['mts'] = max(max(lens), p['mts'] // 2)
+                ds.bucket_kwargs['max_total_size'] = p['mts']
+            del log[:]
+        for b in ds:
+            outs.append((list(b), None))
+            log.append(('emit', tuple(x[0] for x in b)))
+            if how == 'pad':
+                b.extend([('pad', 0)] * 2)
+            elif how == 'shrink':
+                del b[:]
+    except BaseException as e:
+        res.violation('bucket-iteration-raised', case, exc_sig(e),
+                      sig={'mode': 'nodrop', 'consumer': how})
+        return
+    res.count('runs_with_an_active_consumer_checked')
+    before = len(res.violations)
+    judge_nodrop(lens, p, log, outs, case, res)
+    for v in res.violations[before:]:
+        v['sig']['consumer'] = how
+
+
 def shards(tier, seed):
     lim = LIMITS[tier]
     out = []
@@ -446,6 +503,13 @@ def run_shard(spec, res):
             if p['mb'] is None and rng.random() < 0.7:
                 p['mb'] = rng.choice((1, 2, 3, 5))
             check_dual(ld, lens, p, res)
+        for k in range(spec['nrand']):
+            lens = [rng.choice(ALPHABET) for _ in range(rng.choice((4, 8, 14)))]
+            p = dict(rng.choice(pts))
+            if p['mb'] is None and rng.random() < 0.6:
+                p['mb'] = rng.choice((1, 2, 3, 5))
+            p['bs'] = max(p['bs'], 2)
+            check_consumer(ld, lens, p, ('reconfigure', 'pad', 'shrink')[k % 3], res)
         # long streams (several hundred examples, lengths up to 300)
         for L in (257, 300, 1000):
             for _ in range(spec.get('nlong', 6)):
@@ -480,6 +544,8 @@ def replay(case, res):
     ld = import_lazy_dataset()
     if case.get('two_iterators'):
         return check_dual(ld, case['lens'], case['params'], res)
+    if case.get('consumer'):
+        return check_consumer(ld, case['lens'], case['params'], case['consumer'], res)
     if case.get('error_path'):
         return check_error_path(ld, case['lens'], case['params'], case['raises_in'],
                                 case['raises_at'], res)
